@@ -227,10 +227,17 @@ func Run(c *fw.Ctx) {
 		ins = sel
 	}
 	profile := os.Getenv("C20_PROFILE") != ""
+	ordinal := make([]int, len(ins)) // position of a value within its kind
+	seenKind := map[string]int{}
+	for i, in := range ins {
+		ordinal[i] = seenKind[in.kind]
+		seenKind[in.kind]++
+	}
 
 	var mu sync.Mutex
 	type agg struct {
 		values, multi, redL2, redCore  int
+		coreLen                        map[int]int
 		actions, maxActions            int
 		states, trans, paths, execs    int64
 		methods                        map[string]bool
@@ -257,7 +264,11 @@ func Run(c *fw.Ctx) {
 				e := &explorer{c: c, idx: i, in: ins[i]}
 				var st stats
 				t0 := time.Now()
-				pv, stack := fw.Safe(func() { st = e.explore(b) })
+				bi := b
+				if b.core > 5 && strings.HasPrefix(ins[i].kind, "v6-message") && ordinal[i]%8 != 0 {
+					bi.core = 5 // thorough: the longest core sequences on every 8th message only (all messages share the Message/RelayMessage printing and encoding code)
+				}
+				pv, stack := fw.Safe(func() { st = e.explore(bi) })
 				if profile {
 					fmt.Fprintf(os.Stderr, "profile %-22s %-70s actions=%-4d size=%-6d fullsnap=%v/%v paths=%-7d execs=%-9d %.2fs\n", ins[i].kind, short(ins[i].name, 70), st.actions, ins[i].size, st.fullSnapL2, st.fullSnapCore, st.paths, st.execs, time.Since(t0).Seconds())
 				}
@@ -271,10 +282,11 @@ func Run(c *fw.Ctx) {
 				mu.Lock()
 				a := per[st.kind]
 				if a == nil {
-					a = &agg{methods: map[string]bool{}}
+					a = &agg{methods: map[string]bool{}, coreLen: map[int]int{}}
 					per[st.kind] = a
 				}
 				a.values++
+				a.coreLen[st.coreLen]++
 				if st.multi {
 					a.multi++
 				}
@@ -346,7 +358,7 @@ func Run(c *fw.Ctx) {
 		surface[k] = map[string]any{"values": a.values, "distinct_type_methods": len(a.methods), "distinct_method_names": len(names),
 			"mean_actions_per_value": float64(a.actions) / float64(max(a.values, 1)), "max_actions_per_value": a.maxActions}
 		c.Scope(k, "values", a.values, "actions_total", a.actions, "max_actions_per_value", a.maxActions,
-			"full_set_sequence_length", b.full, "core_sequence_length", b.core,
+			"full_set_sequence_length", b.full, "values_by_core_sequence_length", fmt.Sprint(a.coreLen),
 			"values_with_reduced_snapshot_at_length2_full_set", a.redL2, "values_with_reduced_snapshot_in_core_search", a.redCore,
 			"states", a.states, "transitions", a.trans, "paths", a.paths, "method_executions", a.execs,
 			"values_with_more_than_one_reachable_state", a.multi, "reports_subsumed_by_deeper_receiver", a.subsumed,
@@ -366,6 +378,7 @@ func Run(c *fw.Ctx) {
 	c.Extra("distinct_type_methods_total", len(ml))
 	c.Extra("type_methods", ml)
 	c.Extra("bounds", map[string]any{"full_action_set_max_length": b.full, "core_max_length": b.core,
+		"core_max_length_note": "thorough: 6 for every value except DHCPv6 messages, where every 8th message (built and decoded) gets 6 and the others 5; quick: 4 for every value",
 		"per_value_execution_budget_above_which_the_reduced_snapshot_is_compared(length-2 full set)": b.budget,
 		"per_value_execution_budget_above_which_the_reduced_snapshot_is_compared(core search)":       b.budgetCore,
 		"reduced_snapshot": "core actions + the value's ToBytes + caller-held slices + the results of the sequence's own calls (length-1 sequences always get the full snapshot on the same value; if anything differs every observation is repeated on its own fresh replay for exact attribution)"})
